@@ -37,7 +37,8 @@ WrongCommission == 402
 PublicKeyInBlockList == 410
 PeriodLimitReached == 413
 StakingTypes == {"Delegate", "Unbond", "MoveStake", "LockStake", "SetCandidateOn", "SetCandidateOff", "SetHaltBlock", "VoteUpdate",
-                 "DeclareCandidacy", "EditCandidate", "EditCandidateCommission"}
+                 "DeclareCandidacy", "EditCandidate", "EditCandidateCommission", "EditCandidatePublicKey"}
+NewPublicKeyIsBad == 411
 
 \* world constants: cfg is a record with chain, unbond, move, jail, stakePeriod, initial and optionally lock, window, grace, minStake
 LockPeriod(cfg) == IF "lock" \in DOMAIN cfg THEN cfg.lock ELSE 34560
@@ -190,6 +191,20 @@ RunEditCommission(s, tx, h, cfg) ==
               ELSE IF FeeShort(s, tx) THEN FailWith(InsufficientFunds, s, tx, tx.sender)
               ELSE Res(OK, [Paid(s, tx) EXCEPT !.cands[a.pub].comm = a.comm, !.cands[a.pub].lastEdit = h], PriceFor(s, tx))
 
+\* a candidate changes its public key: the candidate (id, stakes, settings) and its validator entry continue under the new key, the old key
+\* is blocked for ever; frozen funds and votes keep naming the key they were made for
+Rename(f, old, new) == [k \in (DOMAIN f \ {old}) \cup {new} |-> IF k = new THEN f[old] ELSE f[k]]
+RunEditPubKey(s, tx) ==
+   LET a == tx.args  code == OwnerCode(s, tx)
+   IN IF code # OK THEN FailWith(code, s, tx, tx.sender)
+      ELSE IF a.pub = a.newPub THEN FailWith(NewPublicKeyIsBad, s, tx, tx.sender)
+      ELSE IF a.newPub \in DOMAIN s.cands THEN FailWith(CandidateExists, s, tx, tx.sender)
+      ELSE IF FeeShort(s, tx) THEN FailWith(InsufficientFunds, s, tx, tx.sender)
+      ELSE IF \E i \in DOMAIN s.blocked : s.blocked[i] = a.newPub THEN FailWith(PublicKeyInBlockList, s, tx, tx.sender)
+      ELSE LET s1 == Paid(s, tx)
+           IN Res(OK, [s1 EXCEPT !.cands = Rename(@, a.pub, a.newPub), !.blocked = Append(@, a.pub),
+                                 !.vals = [i \in DOMAIN @ |-> IF @[i].p = a.pub THEN [@[i] EXCEPT !.p = a.newPub] ELSE @[i]]], PriceFor(s, tx))
+
 \* ---------------------------------------------------------------- governance votes: SetHaltBlock, VoteUpdate
 \* a vote is [h, votes (candidate keys in order of arrival), what]; one entry per height for halts, one per (height, version) for updates
 VotesField(t) == IF t = "SetHaltBlock" THEN "haltVotes" ELSE "updVotes"
@@ -229,6 +244,7 @@ RunTxS(s, tx, h, cfg) ==
           [] tx.type = "DeclareCandidacy" -> RunDeclare(s, tx, h)
           [] tx.type = "EditCandidate" -> RunEditCandidate(s, tx)
           [] tx.type = "EditCandidateCommission" -> RunEditCommission(s, tx, h, cfg)
+          [] tx.type = "EditCandidatePublicKey" -> RunEditPubKey(s, tx)
 
 \* ================================================================ BeginBlock
 InGrace(s, h, cfg) == \/ (h >= cfg.initial - 1 /\ h <= cfg.initial - 1 + GraceLen(cfg))
